@@ -106,6 +106,16 @@ TEMPLATES = [
     T('iso NNh', 'h', lambda d, n, s: ymd(d) + ' %02dh' % d.hour, offset_ok=False, group='hms'),
     T('iso NNhNNmNN.fs', 'frac', lambda d, n, s: ymd(d) + ' %02dh%02dm%02d' % (d.hour, d.minute, d.second) + frac(d, n, '.') + 's',
       offset_ok=False, group='hms'),
+    # ... with the time in front of a date that starts with a number (a number after an h/m/s label and a blank is a
+    # date member unless it is the last token)
+    T('NNhNNmNNs first D Mon Y', 'hms', lambda d, n, s: '%02dh%02dm%02ds %d %s %04d' % (d.hour, d.minute, d.second, d.day, MON[d.month - 1], d.year),
+      offset_ok=False, bare_year=True, group='hms'),
+    T('NNhNNmNNs first m/d/Y', 'hms', lambda d, n, s: '%02dh%02dm%02ds %02d/%02d/%04d' % (d.hour, d.minute, d.second, d.month, d.day, d.year),
+      flags={'dayfirst': False, 'yearfirst': False}, offset_ok=False, group='hms'),
+    T('NNhNNm first Y/m/d', 'hm', lambda d, n, s: '%02dh%02dm %04d/%02d/%02d' % (d.hour, d.minute, d.year, d.month, d.day),
+      flags={'yearfirst': True, 'dayfirst': False}, offset_ok=False, group='hms'),
+    T('NNh first D Month Y', 'h', lambda d, n, s: '%02dh %d %s %04d' % (d.hour, d.day, MONTH[d.month - 1], d.year),
+      offset_ok=False, bare_year=True, group='hms'),
     # numeric dates
     T('US m/d/Y', 'date', lambda d, n, s: '%02d/%02d/%04d' % (d.month, d.day, d.year), flags={'dayfirst': False, 'yearfirst': False}, group='numeric'),
     T('US m/d/Y hms', 'hms', lambda d, n, s: '%d/%d/%04d %s' % (d.month, d.day, d.year, hms(d)), flags={'dayfirst': False, 'yearfirst': False}, group='numeric'),
